@@ -750,8 +750,11 @@ class DBUDSServer(UDSServer):
                     query += f"json_extract(s.properties_pre, '$.{key}') IS NULL AND "
                 else:
                     query += f"json_extract(s.properties_pre, '$.{key}') = ? AND "
+                    # json_extract() yields plain text for strings and minified JSON for containers
                     parameters.append(
-                        value if isinstance(value, int | float) else json.dumps(value)
+                        value
+                        if isinstance(value, int | float | str)
+                        else json.dumps(value, separators=(",", ":"))
                     )
 
         query += "r.request_pdu = ? "
